@@ -392,6 +392,31 @@ func runC11(p *core.Prog, r *core.Report, tier string) {
 	// is cancelled on the first failure (errgroup.WithContext) ----
 	checkNoFailFastContext(p, r, "C11.j", []string{"services/blockrelay/standard", "services/proposalpreparer/standard"}, "a failing relay or beacon node aborts the registrations/preparations still in flight to the others")
 
+	// ---- (k) what is registered comes from the last configuration obtained successfully: a failed refresh keeps it
+	// (shared with C12.d) ----
+	{
+		relayRel11 := "services/blockrelay/standard"
+		cfgField := core.FieldID{Owner: relayRel11 + ".Service", Name: "executionConfig"}
+		cfgMu := core.FieldID{Owner: relayRel11 + ".Service", Name: "executionConfigMu"}
+		nSt := checkConfigStores(p, r, ds, core.NewLockAnalysis(p), "C11.k", p.FuncsIn(relayRel11), cfgField, cfgMu)
+		r.Floor("C11.k stores to executionConfig outside New", nSt, 1)
+	}
+	// ---- (l) the fee recipient and gas limit registered are those of the first matching proposer entry (shared
+	// with C10.c) ----
+	{
+		nOpt := 0
+		for _, f := range p.FuncsIn("services/blockrelay/v2") {
+			for _, l := range p.Loops(f) {
+				t := l.RangeType()
+				if t == nil || !strings.Contains(t.String(), "v2.ProposerConfig") {
+					continue
+				}
+				nOpt += checkFirstMatchOptions(p, r, ds, "C11.l", f, l)
+			}
+		}
+		r.Floor("C11.l proposer entry applications", nOpt, 1)
+	}
+
 	// ---- (f) preparations ----
 	nPrep := 0
 	for _, f := range prepFns {
